@@ -69,15 +69,39 @@ func (w *World) registerCreatedValidators() {
 		return
 	}
 	ctx := w.P.GetContext()
+	done := map[string]bool{}
 	for _, pv := range w.pendingVals {
+		if done[pv.op] {
+			continue
+		}
+		done[pv.op] = true
+		// all attempts of this block for the same operator: at most one of them created the validator
+		var keys []string
+		for _, q := range w.pendingVals {
+			if q.op == pv.op {
+				keys = append(keys, q.key)
+			}
+		}
 		va, _ := sdk.ValAddressFromBech32(pv.op)
-		if _, err := w.P.PApp.StakingKeeper.GetValidator(ctx, va); err == nil {
+		won := ""
+		if val, err := w.P.PApp.StakingKeeper.GetValidator(ctx, va); err == nil {
+			if ca, err := val.GetConsAddr(); err == nil {
+				won = w.N.keyName(ca)
+			}
+			w.ValKey[pv.name] = won
+		}
+		for _, k := range keys {
+			if k == won {
+				continue
+			}
+			if ck := fmt.Sprintf("%x", []byte(w.N.Keys[k].Addr())); w.N.ValByCons[ck] == pv.name {
+				delete(w.N.ValByCons, ck)
+			}
+		}
+		if won != "" {
 			continue
 		}
 		delete(w.N.ValByOp, pv.op)
-		if ck := fmt.Sprintf("%x", []byte(w.N.Keys[pv.key].Addr())); w.N.ValByCons[ck] == pv.name {
-			delete(w.N.ValByCons, ck)
-		}
 		delete(w.ValKey, pv.name)
 		for i, nm := range w.N.ValNames {
 			if nm == pv.name {
@@ -100,6 +124,8 @@ type Link struct {
 var (
 	recordingDefault = true
 	obsDefault       = false
+	deltaDefault     = true // provider snapshots as deltas (VERIF_FULLSNAP=1 writes full snapshots)
+	deltaCheck       = false // VERIF_DELTACHECK=1: write the full snapshot next to each delta
 )
 
 func NewWorld(t testing.TB, cfg Config) *World {
@@ -377,6 +403,8 @@ type Recorder struct {
 	// light mode: only block-level snapshots for chains/blocks that are not under test
 	light bool
 	lastSnap map[string]string
+	lastTop  map[string]json.RawMessage
+	lastCons map[string]json.RawMessage
 }
 
 func (r *Recorder) skipSnap(c *Chain, point string) bool { return false }
@@ -417,9 +445,120 @@ func (r *Recorder) emit(chain, a string, args any, res any, s map[string]any) {
 			s = map[string]any{"same": true}
 		} else {
 			r.lastSnap[chain] = string(b)
+			if chain == "p" {
+				s = r.providerDelta(a, b, s)
+			}
 		}
 	}
 	r.events = append(r.events, map[string]any{"i": len(r.events) + 1, "chain": chain, "a": a, "args": sanitize(args), "res": sanitize(res), "s": s})
+}
+
+// providerDelta replaces a provider snapshot by the fields that differ from the previous snapshot:
+//
+//	{"d": {top-level field |-> new value, except "cons"}, "dc": {consumer |-> new record},
+//	 "dg": {changed fields of "dig"; for its per-consumer maps only the changed entries}, "dgr": {removed entries}}
+//
+// Trace.tla rebuilds the full state from its previous one.  A full snapshot is written at "Init" and whenever a
+// field or a consumer disappeared.
+func (r *Recorder) providerDelta(a string, raw []byte, full map[string]any) map[string]any {
+	var cur map[string]json.RawMessage
+	if json.Unmarshal(raw, &cur) != nil {
+		return full
+	}
+	var curCons map[string]json.RawMessage
+	if c, ok := cur["cons"]; ok {
+		if json.Unmarshal(c, &curCons) != nil {
+			return full
+		}
+	}
+	prev, prevCons := r.lastTop, r.lastCons
+	r.lastTop, r.lastCons = cur, curCons
+	if a == "Init" || prev == nil || !deltaDefault {
+		return full
+	}
+	for k := range prev {
+		if _, ok := cur[k]; !ok {
+			return full
+		}
+	}
+	if len(cur) != len(prev) {
+		return full
+	}
+	for k := range prevCons {
+		if _, ok := curCons[k]; !ok {
+			return full
+		}
+	}
+	d := map[string]any{}
+	out := map[string]any{"d": d}
+	for k, v := range cur {
+		if k == "cons" {
+			continue
+		}
+		if pv, ok := prev[k]; !ok || string(pv) != string(v) {
+			if k == "dig" {
+				// the store digests: per-consumer maps as changed / removed entries, the rest as replaced fields
+				if dg, dgr, ok := digDelta(pv, v); ok {
+					out["dg"], out["dgr"] = dg, dgr
+					continue
+				}
+			}
+			d[k] = v
+		}
+	}
+	dc := map[string]any{}
+	for k, v := range curCons {
+		if pv, ok := prevCons[k]; !ok || string(pv) != string(v) {
+			dc[k] = v
+		}
+	}
+	out["dc"] = dc
+	if deltaCheck {
+		out["full"] = full // self-test of the encoding: Trace.tla's X_DeltaFaithful compares its rebuilt state with this
+	}
+	return out
+}
+
+func digDelta(prev, cur json.RawMessage) (map[string]any, map[string]any, bool) {
+	var pm, cm map[string]json.RawMessage
+	if json.Unmarshal(prev, &pm) != nil || json.Unmarshal(cur, &cm) != nil || len(pm) != len(cm) {
+		return nil, nil, false
+	}
+	dg, dgr := map[string]any{}, map[string]any{}
+	for k, v := range cm {
+		pv, ok := pm[k]
+		if !ok {
+			return nil, nil, false
+		}
+		if k != "cons" && k != "prefixes" {
+			if string(pv) != string(v) {
+				dg[k] = v
+			}
+			continue
+		}
+		var ps, cs map[string]json.RawMessage
+		if json.Unmarshal(pv, &ps) != nil || json.Unmarshal(v, &cs) != nil {
+			return nil, nil, false
+		}
+		ch, rm := map[string]any{}, []any{}
+		for c, x := range cs {
+			if px, ok := ps[c]; !ok || string(px) != string(x) {
+				ch[c] = x
+			}
+		}
+		for c := range ps {
+			if _, ok := cs[c]; !ok {
+				rm = append(rm, c)
+			}
+		}
+		dg[k], dgr[k] = ch, rm
+	}
+	for _, k := range []string{"cons", "prefixes"} {
+		if _, ok := dg[k]; !ok {
+			return nil, nil, false
+		}
+	}
+	return dg, dgr, true
 }
 
 // blockEvents turns the hook events buffered during one FinalizeBlock into trace lines.
